@@ -15,6 +15,23 @@ PROPS = {
     ),
 }
 
+PROPS['C01'] = dict(
+    level='other',
+    harness='h01',
+    min_t1=40,
+    explanation='T1 (unbounded, z3): every evaluation node class (constant, unary, NULL-strict unary, binary, BETWEEN, AND, OR, COALESCE, '
+                'getitem, getter) satisfies its semantic equation from the statement for arbitrary child values and - through loop '
+                'invariants - every argument count; operator bodies per operand-type overload (NULL on zero divisor, int/int division '
+                'decimal, operand order, no exception); the NULL-strict scalar-function wrapper for all operand counts. Structural '
+                'induction over expression depth is a stated meta-argument. The row loop, FROM/WHERE combination, overload lookup and '
+                'parser-to-compiler wiring are decided only on a bounded scope (T3: Connection.execute vs. a reference semantics written '
+                'from the statement; registry sweep over every registered operator overload).',
+    trusted_base=['structural induction over expression trees: sem is defined by the local equations each node class is proved to satisfy',
+                  'Decimal arithmetic is uninterpreted (which operation on which operands under which guards is proved, not rounding)',
+                  'decorator effects (registry entries) are taken from the imported package (reflection), not from symbolic execution'],
+    assumptions=['PURE_CHILDREN', 'values of one column have one Python type (structural equality of values coincides with ==)'],
+)
+
 NOT_APPLICABLE = {}
 
 BASELINE_CMD = ('cd /repo && env -u BEANQUERY_VERIF /venv/bin/python -m pytest -ra -q -p no:cacheprovider --timeout=900 '
